@@ -109,14 +109,27 @@ def TrueValue (r : Nat) (n : Num) (num den : Nat) : Prop :=
     num * (powFrac r n.exponent (n.mantissa + 1)).2 < (powFrac r n.exponent (n.mantissa + 1)).1 * den
    else num * (powFrac r n.exponent n.mantissa).2 ≤ (powFrac r n.exponent n.mantissa).1 * den)
 
-/-- **`bellerophon` is sound**: truncated and untruncated mantissas (a truncated one holds at least 44 bits,
-as every `u64_step`-digit mantissa does: then `ctlz + 1 ≤ 20` and the cap of the booked error is not reached). -/
-theorem bellerophon_sound_all {F : FTy} {p eb : Nat} (lay : Layout F p eb) (hp60 : p ≤ 60)
+/-- **`bellerophon_error_bound`**: what `bellPrepare` (the first half of `bellerophon`: early exits, the two
+multiplications, error booking, normalisation) guarantees about the **true** value `num/den` of the literal.
+Either an early exit that is already the correctly rounded result, or a normalised significand `mant` at
+biased exponent `pw` with booked `errors = E·2^sh` such that, in units of the last place of `mant`
+(`U = den·2^β`, `Y = num·2^L·2^α`, `β − α = pw − 1`), `mant − 4 < Y/U < mant + errors`, and more tightly
+`Y/U < mant + 8` (`+ 2·2^ctlz + 1` for a truncated mantissa). A truncated mantissa holds at least 44 bits (as every
+`u64_step`-digit mantissa does: then `ctlz + 1 ≤ 20` and the cap of the booked error is not reached). -/
+theorem prepare_cases {F : FTy} {p eb : Nat} (lay : Layout F p eb)
     {r : Nat} {P : Powers} (hc : BellFacts r P) (n : Num)
     (hw : n.mantissa < 2 ^ 64) (hmw : n.manyDigits = true → 2 ^ 44 ≤ n.mantissa)
-    (num den : Nat) (hd : 0 < den) (htv : TrueValue r n num den) {fp : ExtendedFloat80}
-    (h : bellerophon F P n false = .ok fp) (hv : 0 ≤ fp.exp) :
-    extendedToFloat F fp = roundNE F.fmt num den := by
+    (num den : Nat) (hd : 0 < den) (htv : TrueValue r n num den) :
+    (bellPrepare F P n = .zero ∧ roundNE F.fmt num den = 0) ∨
+    (bellPrepare F P n = .inf ∧ roundNE F.fmt num den = F.fmt.infBits) ∨
+    ∃ (mant E sh : Nat) (pw : Int),
+      bellPrepare F P n = .mid ⟨mant, pw⟩ (E * 2 ^ sh) ∧ 2 ^ 63 ≤ mant ∧ mant < 2 ^ 64 ∧
+      4 ≤ E * 2 ^ sh ∧ E * 2 ^ sh < 2 ^ 32 ∧ -4400 ≤ pw ∧ pw < 32768 ∧
+      mant * (den * 2 ^ (pw - 1).toNat) <
+        num * 2 ^ L F.fmt * 2 ^ (1 - pw).toNat + 4 * (den * 2 ^ (pw - 1).toNat) ∧
+      num * 2 ^ L F.fmt * 2 ^ (1 - pw).toNat < (mant + E * 2 ^ sh) * (den * 2 ^ (pw - 1).toNat) ∧
+      num * 2 ^ L F.fmt * 2 ^ (1 - pw).toNat <
+        (mant + (8 + if n.manyDigits then 2 * 2 ^ clz64 n.mantissa + 1 else 0)) * (den * 2 ^ (pw - 1).toNat) := by
   have hf := lay.wf
   have hr2 := hc.r2
   have hr0 : 0 < r := by omega
@@ -162,15 +175,15 @@ theorem bellerophon_sound_all {F : FTy} {p eb : Nat} (lay : Layout F p eb) (hp60
     have h1 := roundNE_mono' hf (hden0 n.mantissa) hd htv1
     have h2 := roundNE_le_infBits hf num hd
     omega
-  unfold bellerophon at h
-  unfold bellPrepare litExpCut at h
-  simp only [] at h
+  generalize hprep : bellPrepare F P n = prep
+  unfold bellPrepare litExpCut at hprep
+  simp only [] at hprep
   by_cases h1 : n.mantissa = 0 ∨ n.exponent ≤ -0x1000
   · -- zero
-    rw [if_pos h1] at h
-    simp only [] at h
-    injection h with h; subst h
-    rw [ext_zero lay]
+    rw [if_pos h1] at hprep
+    subst hprep
+    left
+    refine ⟨rfl, ?_⟩
     rcases h1 with h0 | he
     · -- w = 0 is untruncated
       have hm : ¬ n.manyDigits = true := fun hm => by have := hmw hm; omega
@@ -184,23 +197,23 @@ theorem bellerophon_sound_all {F : FTy} {p eb : Nat} (lay : Layout F p eb) (hp60
         · exact h
         · have := Nat.mul_pos h hp; omega
       rw [hn0, roundNE_zero]
-    · symm; apply hzero
+    · apply hzero
       unfold powFrac
       rw [if_neg (by omega)]
       apply tiny_pow lay _ _ (by omega)
       have : 1140 ≤ (-n.exponent).toNat := by omega
       exact Nat.le_trans (Nat.pow_le_pow_right (by norm_num) this) (h2r _)
-  · rw [if_neg h1] at h
+  · rw [if_neg h1] at hprep
     have hw0 : n.mantissa ≠ 0 := fun h0 => h1 (Or.inl h0)
     have he1 : -0x1000 < n.exponent := by
       apply Classical.byContradiction; intro hc'; exact h1 (Or.inr (by omega))
     by_cases h2 : n.exponent ≥ 0x1000
     · -- infinity
-      rw [if_pos h2] at h
-      simp only [] at h
-      injection h with h; subst h
-      rw [ext_inf lay]
-      symm; apply hinf
+      rw [if_pos h2] at hprep
+      subst hprep
+      right; left
+      refine ⟨rfl, ?_⟩
+      apply hinf
       unfold powFrac
       rw [if_pos (by omega)]
       apply huge_pow lay
@@ -210,7 +223,7 @@ theorem bellerophon_sound_all {F : FTy} {p eb : Nat} (lay : Layout F p eb) (hp60
       have : 1 * r ^ n.exponent.toNat ≤ n.mantissa * r ^ n.exponent.toNat :=
         Nat.mul_le_mul_right _ (by omega)
       omega
-    · rw [if_neg h2] at h
+    · rw [if_neg h2] at hprep
       have he2 : n.exponent < 0x1000 := by omega
       have hE : wrapI32 (wrapI32 n.exponent + P.bias) = n.exponent + P.bias := by
         unfold wrapI32 wrapI
@@ -218,34 +231,34 @@ theorem bellerophon_sound_all {F : FTy} {p eb : Nat} (lay : Layout F p eb) (hp60
         have h31 : (2 : Int) ^ (32 - 1) = 2147483648 := by norm_num
         simp only [h32, h31]
         omega
-      rw [hE] at h
-      rw [if_neg (by omega)] at h
+      rw [hE] at hprep
+      rw [if_neg (by omega)] at hprep
       by_cases h3 : n.exponent + P.bias < 0
-      · rw [if_pos h3] at h
-        simp only [] at h
-        injection h with h; subst h
-        rw [ext_zero lay]
-        symm; apply hzero
+      · rw [if_pos h3] at hprep
+        subst hprep
+        left
+        refine ⟨rfl, ?_⟩
+        apply hzero
         unfold powFrac
         rw [if_neg (by omega)]
         apply tiny_pow lay _ _ (by omega)
         have : P.bias.toNat + 1 ≤ (-n.exponent).toNat := by omega
         exact Nat.le_trans hc.under (hpow_mono this)
-      · rw [if_neg h3] at h
+      · rw [if_neg h3] at hprep
         obtain ⟨En, hEn⟩ := Int.eq_ofNat_of_zero_le (show 0 ≤ n.exponent + P.bias by omega)
         obtain ⟨sn, hsn⟩ := Int.eq_ofNat_of_zero_le (show 0 ≤ P.step by omega)
         have hsn0 : 0 < sn := by omega
-        rw [hEn, hsn] at h
+        rw [hEn, hsn] at hprep
         have hdiv : (Int.tdiv (En : Int) (sn : Int)).toNat = En / sn := by
           rw [Int.tdiv_eq_ediv_of_nonneg (by omega)]; norm_cast
         have hmod : (Int.tmod (En : Int) (sn : Int)).toNat = En % sn := by
           rw [Int.tmod_eq_emod_of_nonneg (by omega)]; norm_cast
-        rw [hdiv, hmod] at h
+        rw [hdiv, hmod] at hprep
         by_cases h4 : En / sn ≥ P.large.size
-        · rw [if_pos h4] at h
-          simp only [] at h
-          injection h with h; subst h
-          rw [ext_inf lay]
+        · rw [if_pos h4] at hprep
+          subst hprep
+          right; left
+          refine ⟨rfl, ?_⟩
           have hge : P.large.size * sn ≤ En := by
             have := Nat.div_mul_le_self En sn
             have := Nat.mul_le_mul_right sn h4
@@ -254,7 +267,7 @@ theorem bellerophon_sound_all {F : FTy} {p eb : Nat} (lay : Layout F p eb) (hp60
           have hen : P.large.size * sn - P.bias.toNat ≤ n.exponent.toNat := by omega
           have hbsz := hc.bsz
           rw [hsn'] at hbsz
-          symm; apply hinf
+          apply hinf
           unfold powFrac
           rw [if_pos (show n.exponent ≥ 0 by omega)]
           apply huge_pow lay
@@ -264,13 +277,13 @@ theorem bellerophon_sound_all {F : FTy} {p eb : Nat} (lay : Layout F p eb) (hp60
           have : 1 * r ^ n.exponent.toNat ≤ n.mantissa * r ^ n.exponent.toNat :=
             Nat.mul_le_mul_right _ (by omega)
           omega
-        · rw [if_neg h4] at h
+        · rw [if_neg h4] at hprep
           have hli : En / sn < P.large.size := by omega
           have hsi : En % sn < P.step.toNat := by
             have := Nat.mod_lt En hsn0; omega
           obtain ⟨hsI, hsIlt, sm, ns, hgs, hns, hsmeq, hsm1, hsm2⟩ := small_facts (hc.small _ hsi)
           obtain ⟨b, ebL, hgl, hb1, hb2, hebl, hebh, hbr1, hbr2⟩ := large_facts (hc.large _ hli)
-          simp only [hsI, hgs, hgl] at h
+          simp only [hsI, hgs, hgl] at hprep
           -- the booked truncation error
           obtain ⟨hlz, hn1, hn2, _⟩ := clz_norm hw0 hw
           generalize hlzv : clz64 n.mantissa = lz at *
@@ -317,8 +330,8 @@ theorem bellerophon_sound_all {F : FTy} {p eb : Nat} (lay : Layout F p eb) (hp60
           obtain ⟨mant, sh, E, pw, hmid, hm1, hm2, hsh, hEcase, hpw1, hpw2, hy1, hy2⟩ :=
             scale_bound F n.mantissa (r ^ (En % sn)) sm ns b errors0 ebL ((r : ℚ) ^ K / 2 ^ ebL) hw0 hw
               (Nat.pow_pos hr0) hsmeq hsm1 hsm2 hns hb1 hb2 hB1 hB2 he0lt
-          rw [hmid] at h
-          simp only [] at h
+          rw [hmid] at hprep
+          subst hprep
           -- the value of the truncated mantissa
           obtain ⟨hxq, hden⟩ := powFrac_q r n.mantissa n.exponent hr0
           obtain ⟨hxq1, hden1⟩ := powFrac_q r (n.mantissa + 1) n.exponent hr0
@@ -391,7 +404,13 @@ theorem bellerophon_sound_all {F : FTy} {p eb : Nat} (lay : Layout F p eb) (hp60
               · rw [h, h16]; push_cast; linarith
               · rw [h, h16]; push_cast; linarith
           have hbounds : (mant : ℚ) - 4 < (num : ℚ) / den * 2 ^ (((L F.fmt : Nat) : Int) + 1 - pw) ∧
-              (num : ℚ) / den * 2 ^ (((L F.fmt : Nat) : Int) + 1 - pw) < (mant : ℚ) + ((E * 2 ^ sh : Nat) : ℚ) := by
+              (num : ℚ) / den * 2 ^ (((L F.fmt : Nat) : Int) + 1 - pw) < (mant : ℚ) + ((E * 2 ^ sh : Nat) : ℚ) ∧
+              (num : ℚ) / den * 2 ^ (((L F.fmt : Nat) : Int) + 1 - pw) <
+                (mant : ℚ) + ((8 + if n.manyDigits then 2 * 2 ^ lz + 1 else 0 : Nat) : ℚ) := by
+            have hcast8 : ((8 + if n.manyDigits then 2 * 2 ^ lz + 1 else 0 : Nat) : ℚ) =
+                8 + if n.manyDigits then 2 * (2 : ℚ) ^ lz + 1 else 0 := by
+              split <;> push_cast <;> ring
+            rw [hcast8]
             push_cast
             generalize (2 : ℚ) ^ (((L F.fmt : Nat) : Int) + 1 - pw) = c at *
             generalize (r : ℚ) ^ n.exponent = R at *
@@ -407,7 +426,13 @@ theorem bellerophon_sound_all {F : FTy} {p eb : Nat} (lay : Layout F p eb) (hp60
             · rcases hx_hi with hle | ⟨hm, hlt⟩
               · have h1 : X * c ≤ W * R * c := mul_le_mul_of_nonneg_right hle (le_of_lt hcpos)
                 have h2 : 4 * S ≤ Eq * S := mul_le_mul_of_nonneg_right hE4 (by linarith only [hsh1])
-                linarith only [h1, h2, hy2, hsh1]
+                have hnn : (0 : ℚ) ≤ if n.manyDigits = true then 2 * (2 : ℚ) ^ lz + 1 else 0 := by
+                  split
+                  · positivity
+                  · exact le_refl _
+                constructor
+                · linarith only [h1, h2, hy2, hsh1]
+                · linarith only [h1, hy2, hsh4, hnn]
               · obtain ⟨hl19, hE⟩ := hEm hm
                 have hT1 : (1 : ℚ) ≤ 2 ^ lz := one_le_pow₀ (by norm_num)
                 have hT19 : (2 : ℚ) ^ lz ≤ 524288 := by
@@ -439,9 +464,14 @@ theorem bellerophon_sound_all {F : FTy} {p eb : Nat} (lay : Layout F p eb) (hp60
                 have hTS : 16 * T * 1 ≤ 16 * T * S :=
                   mul_le_mul_of_nonneg_left hsh1 (by linarith only [hT1])
                 have hexp2 : (16 * T + 5) * S = 16 * T * S + 5 * S := by ring
-                linarith only [hyp, h7, hy2', hRcb, hES, hTS, hexp2, hsh1, hT1]
-          obtain ⟨hlo', hhi'⟩ := hbounds
+                rw [if_pos hm]
+                constructor
+                · linarith only [hyp, h7, hy2', hRcb, hES, hTS, hexp2, hsh1, hT1]
+                · linarith only [hyp, h7, hy2', hRcb, hsh4]
+          obtain ⟨hlo', hhi', htight'⟩ := hbounds
           obtain ⟨hlo, hhi⟩ := bridge (L F.fmt) num den mant 4 (E * 2 ^ sh) pw hd hlo' hhi'
+          obtain ⟨_, htight⟩ := bridge (L F.fmt) num den mant 4
+            (8 + if n.manyDigits then 2 * 2 ^ lz + 1 else 0) pw hd hlo' htight'
           have hBl : F.C.exponentBias ≤ 2000 := by
             rw [lay.bias]; have := lay.hL1074; omega
           have hB0 : 0 ≤ F.C.exponentBias := by rw [lay.bias]; omega
@@ -459,12 +489,32 @@ theorem bellerophon_sound_all {F : FTy} {p eb : Nat} (lay : Layout F p eb) (hp60
               rcases hEcase with ⟨h0, h | h⟩ | ⟨hpos, h | h⟩ <;> omega
             have : E * 2 ^ sh ≤ E * 2 ^ 2 := Nat.mul_le_mul_left _ h1
             omega
-          exact bellFinish_sound lay mant (E * 2 ^ sh) 4 pw num den (1 - pw).toNat (pw - 1).toNat hm1 hm2
-            hEhi
-            (by have : (2 : Int) ^ 40 = 1099511627776 := by norm_num
-                omega) (by omega) hd (by omega) hlo hhi hElo
-            (by have : 2 ^ 4 ≤ 2 ^ (64 - p) := Nat.pow_le_pow_right (by norm_num) (by omega)
-                omega) (by omega) h hv
+          right; right
+          exact ⟨mant, E, sh, pw, rfl, hm1, hm2, hElo, hEhi, by omega, by omega, hlo, hhi, htight⟩
+
+/-- **`bellerophon` is sound**: truncated and untruncated mantissas. -/
+theorem bellerophon_sound_all {F : FTy} {p eb : Nat} (lay : Layout F p eb) (hp60 : p ≤ 60)
+    {r : Nat} {P : Powers} (hc : BellFacts r P) (n : Num)
+    (hw : n.mantissa < 2 ^ 64) (hmw : n.manyDigits = true → 2 ^ 44 ≤ n.mantissa)
+    (num den : Nat) (hd : 0 < den) (htv : TrueValue r n num den) {fp : ExtendedFloat80}
+    (h : bellerophon F P n false = .ok fp) (hv : 0 ≤ fp.exp) :
+    extendedToFloat F fp = roundNE F.fmt num den := by
+  unfold bellerophon at h
+  rcases prepare_cases lay hc n hw hmw num den hd htv with ⟨hp, hz⟩ | ⟨hp, hi⟩ |
+    ⟨mant, E, sh, pw, hp, hm1, hm2, hElo, hEhi, hpw1, hpw2, hlo, hhi, _⟩
+  · rw [hp] at h; simp only [] at h
+    injection h with h; subst h
+    rw [ext_zero lay, hz]
+  · rw [hp] at h; simp only [] at h
+    injection h with h; subst h
+    rw [ext_inf lay, hi]
+  · rw [hp] at h; simp only [] at h
+    exact bellFinish_sound lay mant (E * 2 ^ sh) 4 pw num den (1 - pw).toNat (pw - 1).toNat hm1 hm2
+      hEhi
+      (by have : (2 : Int) ^ 40 = 1099511627776 := by norm_num
+          omega) hpw2 hd (by omega) hlo hhi hElo
+      (by have : 2 ^ 4 ≤ 2 ^ (64 - p) := Nat.pow_le_pow_right (by norm_num) (by omega)
+          omega) (by omega) h hv
 
 /-- the untruncated case as a corollary -/
 theorem bellerophon_untruncated_sound {F : FTy} {p eb : Nat} (lay : Layout F p eb) (hp60 : p ≤ 60)
